@@ -1,7 +1,9 @@
 package store
 
 import (
+	"bufio"
 	"context"
+	"encoding/json"
 	"fmt"
 	"sync"
 	"os"
@@ -24,11 +26,11 @@ var profiles = map[string]Profile{
 	"init": {Name: "init", Names: allNames, Callers: allCallers, Declared: [][]string{{"a"}, {"a", "b"}, {"b", "a", "b"}, {"a", "a"}},
 		AllowLookup: []bool{false, true}, Expiry: []int64{0}, CacheKinds: []string{"none", "empty", "readerr", "garbage", "partial", "complete", "stale"},
 		Deadlines: []int64{0, 0, 3, 700, 10000}, LookupDl: []int64{0}, AdvanceMs: []int64{1, 2, 5, 100, 1000, 4096, 5000},
-		Weights: map[string]int{"respond": 30, "fail": 25, "svc": 10, "advance": 35, "read": 2, "handle": 3}, Steps: 40},
+		Weights: map[string]int{"respond": 30, "fail": 25, "svc": 10, "advance": 35, "read": 2, "handle": 3}, Steps: 40, StructPct: 30},
 	"poll": {Name: "poll", Names: allNames, Callers: allCallers, Declared: [][]string{{"a", "b"}, {"a"}},
 		AllowLookup: []bool{false, true}, Expiry: []int64{0}, CacheKinds: []string{"none", "empty", "complete"},
-		Deadlines: []int64{0}, LookupDl: []int64{0}, AdvanceMs: []int64{1000},
-		Weights: map[string]int{"respond": 40, "fail": 8, "svc": 20, "advance": 4, "refresh": 14, "read": 8, "handle": 6, "cachefault": 2, "restart": 2}, Steps: 60},
+		Deadlines: []int64{0}, LookupDl: []int64{0}, AdvanceMs: []int64{1000, 10000}, RefreshDl: []int64{0, 0, 10000, 3000},
+		Weights: map[string]int{"respond": 36, "fail": 8, "svc": 20, "advance": 8, "refresh": 16, "read": 8, "handle": 6, "cachefault": 2, "restart": 2, "cancel": 3}, Steps: 60},
 	"tick": {Name: "tick", Names: allNames, Callers: allCallers, Declared: [][]string{{"a", "b"}}, Auto: true,
 		AllowLookup: []bool{true}, Expiry: []int64{0}, CacheKinds: []string{"empty", "complete"},
 		Deadlines: []int64{0}, LookupDl: []int64{0}, AdvanceMs: []int64{1000},
@@ -45,6 +47,10 @@ var profiles = map[string]Profile{
 		AllowLookup: []bool{true, true, false}, Expiry: []int64{0, 30000}, CacheKinds: []string{"undeclared", "empty", "complete"},
 		Deadlines: []int64{0}, LookupDl: []int64{0, 10000}, AdvanceMs: []int64{1000, 31000},
 		Weights: map[string]int{"respond": 34, "fail": 5, "svc": 16, "advance": 8, "refresh": 10, "tick": 6, "read": 2, "handle": 10, "lookup": 6, "close": 2, "restart": 2}, Steps: 45},
+	"lookupx": {Name: "lookupx", Names: []string{"a", "x"}, Callers: allCallers, Declared: [][]string{{"a"}},
+		AllowLookup: []bool{true}, Expiry: []int64{0}, CacheKinds: []string{"none", "empty"},
+		Deadlines: []int64{0}, LookupDl: []int64{0, 10000, 10000, 60000}, AdvanceMs: []int64{5000, 10000, 300000}, ParkPct: 35,
+		Weights: map[string]int{"respond": 16, "fail": 6, "svc": 6, "advance": 22, "lookup": 30, "cancel": 8, "unpark": 12, "read": 6, "handle": 4, "refresh": 6}, Steps: 50},
 	"expiry": {Name: "expiry", Names: allNames, Callers: allCallers, Declared: [][]string{{"a"}},
 		AllowLookup: []bool{true}, Expiry: []int64{0, 30000, 30000}, CacheKinds: []string{"undeclared", "zerostamp", "empty"},
 		Deadlines: []int64{0}, LookupDl: []int64{0}, AdvanceMs: []int64{10000, 30000, 31000, 1000},
@@ -268,5 +274,85 @@ func TestReadStress(t *testing.T) {
 	}
 	res.Set("runs", runs)
 	res.Set("reads", reads)
+	res.Write(t)
+}
+
+// TestStoreScript forces behaviours generated by TLC from Store.tla on the real store: each script is the
+// sequence of environment steps of one simulated behaviour. Steps that are not applicable in the real
+// state (e.g. the release of a request the real store has not sent) are skipped and counted; the verdict
+// always comes from validating what was recorded.
+func TestStoreScript(t *testing.T) {
+	dir := vh.Dir(t)
+	res := vh.NewResult(t, "store-script")
+	f, err := os.Open(os.Getenv("VERIF_SCRIPTS"))
+	if err != nil {
+		t.Fatal(err)
+	}
+	defer f.Close()
+	w := vh.NewNDJSON(t, filepath.Join(dir, "trace.ndjson"))
+	var curEnv atomic.Pointer[Env]
+	stop := startWatchdog(t, res, func() []Event {
+		if e := curEnv.Load(); e != nil {
+			return e.Events()
+		}
+		return nil
+	})
+	defer stop()
+	sc := bufio.NewScanner(f)
+	sc.Buffer(make([]byte, 1<<20), 1<<26)
+	n, applied, skipped := 0, 0, 0
+	for sc.Scan() {
+		var steps []Step
+		if err := json.Unmarshal(sc.Bytes(), &steps); err != nil {
+			t.Fatal(err)
+		}
+		n++
+		var evs []Event
+		var notes []string
+		synctest.Test(t, func(t *testing.T) {
+			e := NewEnv(allNames)
+			curEnv.Store(e)
+			for _, s := range steps {
+				if s.Do == "advance" {
+					e.mu.Lock()
+					np := len(e.parked)
+					e.mu.Unlock()
+					if np > 0 {
+						skipped++
+						continue
+					}
+				}
+				if e.Apply(s) {
+					applied++
+				} else {
+					skipped++
+				}
+			}
+			e.UnparkAll()
+			synctest.Wait()
+			evs = e.Events()
+			notes = append(notes, e.Notes...)
+			e.Cleanup()
+		})
+		w.Put(Event{"ev": "reset", "t": 0})
+		for _, ev := range evs {
+			w.Put(ev)
+		}
+		last := int64(0)
+		if len(evs) > 0 {
+			last = evs[len(evs)-1]["t"].(int64)
+		}
+		w.Put(Event{"ev": "end", "t": last})
+		for _, nt := range notes {
+			res.Violate("store-note "+firstWords(nt), fmt.Sprintf("script %d: %s", n, nt), map[string]any{"script": steps, "history": evs})
+		}
+	}
+	w.Close()
+	dw := vh.NewNDJSON(t, filepath.Join(dir, "dict.ndjson"))
+	dw.Put(map[string]any{"names": allNames, "callers": allCallers, "readers": []string{"r1", "r2", "r3"}, "maxver": 3})
+	dw.Close()
+	res.Set("scripts", n)
+	res.Set("applied", applied)
+	res.Set("skipped", skipped)
 	res.Write(t)
 }
